@@ -52,12 +52,15 @@ Section Diversify.
       (map fst new ++ repeat (-1) pad, map snd new ++ repeat inf pad, rng')
     end.
 
+  (* the prange body of row i works on a PRIVATE generator state local_rng_state = rng_state + i;
+     the index's state is not advanced *)
+  Definition row_rng (rng : list Z) (i : nat) : list Z := map (fun w => w + Z.of_nat i) rng.
+
   Definition diversify (inds ds : list (list Z)) (rng : list Z) : list (list Z) * list (list Z) * list Z :=
-    fold_left (fun (st : list (list Z) * list (list Z) * list Z) (row : list Z * list Z) =>
-                 let '(oi, od, rng) := st in
-                 let '(ri, rd, rng') := diversify_row (fst row) (snd row) rng in
-                 (oi ++ [ri], od ++ [rd], rng'))
-              (combine inds ds) ([], [], rng).
+    let rows := map (fun (ir : nat * (list Z * list Z)) =>
+                       let '(ri, rd, _) := diversify_row (fst (snd ir)) (snd (snd ir)) (row_rng rng (fst ir)) in (ri, rd))
+                    (combine (seq 0 (length inds)) (combine inds ds)) in
+    (map fst rows, map snd rows, rng).
 
   (* ---------- CSR version.  [order] = np.argsort(current_data) as computed by the
      compiled code (any permutation sorting the row: the theorems quantify over
